@@ -121,6 +121,13 @@ func (c *conn) open(buf []byte) error {
 		return unix.Send(c.fd, buf, 0)
 	}
 
+	// Data written inside OnOpen may still be waiting in the outbound buffer,
+	// the reply of OnOpen has to go behind it.
+	if !c.outboundBuffer.IsEmpty() {
+		_, _ = c.outboundBuffer.Write(buf)
+		return nil
+	}
+
 	for {
 		n, err := unix.Write(c.fd, buf)
 		if err != nil {
